@@ -36,6 +36,7 @@ func runC13(c *core.Ctx) {
 	c13Rules4b(c)
 	c13MarshalPure(c)
 	c13RefEscape(c)
+	c13ZeroArgs(c)
 	c.Rule("C13.typeof", "A7: per AST node type, MarshalJSON's Type(x) = unmarshal's CheckTypeOf(x), and getNode has a case x constructing that Go type; every typeOf a MarshalJSON can emit has a factory case")
 	c.Rule("C13.keys", "A7: per AST node type, the keys written by MarshalJSON and read by unmarshal are the same set, bind the same struct field, and the reader is of the setter's kind")
 	c.Rule("C13.formatfields", "A7: every field of an AST node that its Format prints from (and that therefore decides what the formatted script says) is written by MarshalJSON and assigned by unmarshal, or Format has a fallback for the field's zero value: a node read back from JSON must format to the text it came from (parentheses of a binary expression, the literal of a regex)")
@@ -48,6 +49,7 @@ func runC13(c *core.Ctx) {
 	c.Rule("C13.fmtinput", "A3: tick.Format hands exactly its parameter to ast.Parse (once, never reassigned or rewritten before): nothing edits the raw text, whose string literals the formatter copies verbatim")
 	c.Rule("C13.regexliteral", "A3: RegexNode.Literal — which Format writes verbatim between slashes — is only ever assigned text sliced out of a string parameter (the script source in newRegex); a node from JSON or built in code keeps it empty so that Format escapes the pattern")
 	c.Rule("C13.pipetype", "A7: per pipeline node type, the typeOf literal(s) written by MarshalJSON equal those accepted by UnmarshalJSON")
+	c.Rule("C13.jsonargs", "A7: F136: the pipeline JSON reader constructs every InfluxQL node with the arguments decoded from the document — no argument of the constructor call in an influxFunctions entry or in unmarshalTopBottom is a constant placeholder: what a node computes is fixed when it is constructed, the Args copied in afterwards are only listed")
 	c.Rule("C13.registry", "A7: every typeOf a pipeline node marshals is a key of exactly one construction registry, and a chainFunctions/multiParents factory yields the node type that marshals that key")
 	c.Rule("C13.parent", "A7: every chain node type that can be marshalled is accepted as a parent on read: it implements chainnodeAlias or isChainNode has a case for it")
 	c.Rule("C13.factoryargs", "A7: registry factories pass constants whose dynamic type is accepted by the type switch of the constructor they reach")
@@ -726,11 +728,33 @@ func c13Pipeline(c *core.Ctx, pkg *packages.Package) {
 	}
 	c13Parent(c, pkg, typeOfNode)
 	// influxFunctions: key = lowerFirst(method called)
+	nInflux := 0
 	for _, k := range an.SortedKeys(registries["influxFunctions"]) {
-		fl, ok := registries["influxFunctions"][k].(*ast.FuncLit)
-		if !ok {
+		// the entry is a function literal, a literal wrapped by a helper of the table (noArgs(func…)), or a declared function
+		var fl *ast.FuncLit
+		shared := false
+		switch v := ast.Unparen(registries["influxFunctions"][k]).(type) {
+		case *ast.FuncLit:
+			fl = v
+		case *ast.CallExpr:
+			for _, a := range v.Args {
+				if l, ok := ast.Unparen(a).(*ast.FuncLit); ok {
+					fl = l
+				}
+			}
+		case *ast.Ident:
+			if fo, ok := info.Uses[v].(*types.Func); ok {
+				if d := declOfFunc(c.P, fo); d != nil && d.Decl.Body != nil {
+					fl = &ast.FuncLit{Type: d.Decl.Type, Body: d.Decl.Body}
+					shared = true
+				}
+			}
+		}
+		if fl == nil {
+			c.Undecided("C13.registry", "influxFunctions["+k+"]#method", token.NoPos, "the entry is neither a function literal, a wrapped literal nor a declared function")
 			continue
 		}
+		nInflux++
 		var called string
 		ast.Inspect(fl.Body, func(n ast.Node) bool {
 			if call, ok := n.(*ast.CallExpr); ok {
@@ -740,8 +764,46 @@ func c13Pipeline(c *core.Ctx, pkg *packages.Package) {
 			}
 			return true
 		})
-		c.Check(lowerFirst(called) == k, "C13.registry", "influxFunctions["+k+"]#method", fl.Pos(), "key %q constructs the node through %s()", k, called)
+		// F136: the node is constructed with what the document says, not with placeholders: no argument of the constructor call
+		// is a constant (what the node computes is fixed by the constructor, the Args copied in afterwards are only listed)
+		ast.Inspect(fl.Body, func(n ast.Node) bool {
+			call, ok := n.(*ast.CallExpr)
+			if !ok {
+				return true
+			}
+			if fn := core.Callee(info, call); fn == nil || core.RecvTypeName(fn) == "" || fn.Name() != called {
+				return true
+			}
+			for i, a := range call.Args {
+				if tv, ok := info.Types[a]; ok && tv.Value != nil {
+					c.Fail("C13.jsonargs", "influxFunctions["+k+"]#arg"+fmt.Sprint(i), a.Pos(), "the JSON reader constructs %s with the constant %s for an argument the document carries: the node read back lists the document's arguments and computes with the placeholder — percentile('value', 90.0) computes the 0th percentile, top(1, 'value') indexes an empty list when it runs", k, types.ExprString(a))
+					return true
+				}
+			}
+			c.Ok("C13.jsonargs", "influxFunctions["+k+"]")
+			return true
+		})
+		// a declared function shared by two keys (holtWinters, holtWintersWithFit) calls the method both are variants of
+		okKey := lowerFirst(called) == k || (shared && called != "" && strings.HasPrefix(k, lowerFirst(called)))
+		c.Check(okKey, "C13.registry", "influxFunctions["+k+"]#method", fl.Body.Pos(), "key %q constructs the node through %s()", k, called)
 		c13FactoryArgs(c, pkg, "influxFunctions["+k+"]", fl)
+	}
+	c.Floor("C13.registry", "entries of influxFunctions", nInflux, 19)
+	// top and bottom have a reader of their own
+	if fn := c.Need("C13.jsonargs", "pipeline", "", "unmarshalTopBottom"); fn != nil {
+		ast.Inspect(fn.Decl.Body, func(n ast.Node) bool {
+			call, ok := n.(*ast.CallExpr)
+			if !ok {
+				return true
+			}
+			cal := core.Callee(info, call)
+			if cal == nil || (cal.Name() != "Top" && cal.Name() != "Bottom") || len(call.Args) == 0 {
+				return true
+			}
+			tv, isConst := info.Types[call.Args[0]]
+			c.Check(!(isConst && tv.Value != nil), "C13.jsonargs", "unmarshalTopBottom#"+cal.Name(), call.Pos(), "the JSON reader constructs %s with a constant number of points: the node read back lists the document's number and selects %s points — top(1, 'value') indexes an empty list when it runs", lowerFirst(cal.Name()), types.ExprString(call.Args[0]))
+			return true
+		})
 	}
 }
 
